@@ -130,6 +130,29 @@ def h : Handler := fun op j =>
   | "cls_ext" => do
       pure (showIS bits (extendedClassCall (← getFList j "stoich") (← getFList j "z") (← getFList j "a")
         (← getF j "T") (← getF j "eps") (← getF j "rho") (← getF j "C") (← getFList j "c")))
+  | "is_vec" => do
+      -- "rows": one list of bit patterns per ion (all of one length), "z": charges
+      let rows ← (← getArr j "rows").mapM fun r => do (← asArr r).mapM asBits
+      match rows with
+      | [] => pure ()
+      | r :: rs => if rs.any (fun x => x.length != r.length) then throw "!bad-arg:rows" else pure ()
+      match ionicStrengthVec rows (← getFList j "z") (← getBool j "warn") with
+      | .ok (v, w) => pure (" ".intercalate (v.map bits) ++ " " ++ flag w)
+      | .error e => pure e.pyName
+  | "allclose" => do
+      -- "shape": "arr" (a, b, atol arrays) | "scalar_arr" (a scalar, b array) | "list" (a, b lists) | "list_scalar" | "scalar"
+      let rtol ← getF j "rtol"
+      match (← getStr j "shape") with
+      | "arr" => pure (toString (allcloseArr (← getFList j "a") (← getFList j "b") rtol (← getFList j "atol")))
+      | "scalar_arr" => pure (toString (allcloseScalarArr (← getF j "a") (← getFList j "b") rtol (← getF j "atol")))
+      | "list" => pure (toString (allcloseList (← getFList j "a") (← getFList j "b") rtol (← getF j "atol")))
+      | "list_scalar" => pure (toString (allcloseListScalar))
+      | "scalar" => pure (toString (allclose (← getF j "a") (← getF j "b") rtol (← getF j "atol")))
+      | _ => .error "!bad-arg:shape"
+  | "cls_base" => do
+      match baseClassCall (← getFList j "stoich") (← getFList j "c") with
+      | none => pure "None"
+      | some v => pure (bits v)
   | "constants" =>
       pure (" ".intercalate ([combinedA, combinedB, neutralityAtol, allcloseRtol, constFaraday, constAvogadro,
         constVacuumPermittivity, constBoltzmann, constPi, constMolarGas].map (showRat (q := ·))))
